@@ -610,6 +610,24 @@ theorem C06_raw_precedence (T : Tables) (hT : TablesOK T) (raw : RawFontDict) (c
     simp only [modelFont] at h1 h2
     rw [h1, h2]
 
+/-- **Full statement for font dictionaries given with the BYTES of the FontFile**: construction fails exactly when
+reading the header raises (same exception); otherwise the font is built and text and advance of EVERY code are the
+specified ones (exact glyph-name algorithm, exact ToUnicode rule) - no judged-domain hypothesis. -/
+theorem C06_raw_precedence_all (T : Tables) (hT : TablesOK T) (raw : RawFontDict) :
+    match resolveFontFile T.fm raw with
+    | .ok fd => ∃ f, buildRaw T.gl (dbOf T) T.fm raw = .ok f ∧
+        ∀ code, glyphText f code = specTextP T fd code ∧ glyphAdv f code = specWidthP T fd code
+    | .error e => buildRaw T.gl (dbOf T) T.fm raw = .error e := by
+  unfold buildRaw
+  cases hr : resolveFontFile T.fm raw with
+  | error e => rfl
+  | ok fd =>
+    refine ⟨build T.gl (dbOf T) T.fm fd, rfl, fun code => ?_⟩
+    have h1 := C06_text_precedence_all T hT fd code
+    have h2 := C06_width_precedence_all T hT fd code
+    simp only [modelFont] at h1 h2
+    exact ⟨h1, h2⟩
+
 /-- The header is read only for a non-Type3, non-standard-14 font without Encoding entry: otherwise the
 FontFile bytes - however malformed - have no influence (and cannot make construction fail). -/
 theorem header_ignored (T : Tables) (raw : RawFontDict) (h : headerToRead T.fm raw = none) :
@@ -907,6 +925,16 @@ example : ∃ w, ([500, 600] : List Rat)[((67 : Int) - fd0.firstChar.getD 0).toN
 example : glyphAdv (modelFont T0 fd0) 67 = 600 / 1000 := by decide +kernel
 example : glyphAdv (modelFont T0 fd0) 68 = 250 / 1000 := by decide +kernel     -- MissingWidth
 example : glyphAdv (modelFont T0 fd0) 65 = 250 / 1000 := by decide +kernel     -- below FirstChar
+
+-- `C06_raw_precedence_all`: both branches occur (a readable header; an odd `<< >>` that makes construction raise)
+def raw0 (bytes : Bytes) : RawFontDict :=
+  { isType3 := false, baseFont := some "Foo", enc := .absent, toUnicode := none, firstChar := none, widths := none,
+    desc := some { missingWidth := some 250, fontFile := some { data := bytes, length1 := none } },
+    fontMatrix := (1, 0, 0, 1, 0, 0) }
+example : (match resolveFontFile T0.fm (raw0 exampleHeader) with | .ok _ => true | .error _ => false) = true := by
+  decide +kernel
+example : (match buildRaw T0.gl (dbOf T0) T0.fm (raw0 [60, 60, 32, 47, 65, 32, 62, 62, 32]) with
+    | .ok _ => false | .error e => e == "PSSyntaxError") = true := by decide +kernel
 
 -- the instances for pdfminer's own tables are not vacuous either (the first glyph-list entry keeps the kernel
 -- lookup short; names deeper in the 4 281-entry list cost minutes of String -> List Char conversion)
